@@ -451,7 +451,12 @@ func dispatch(job Job) *JobRes {
 		mon.Reset(0, false)
 		mode := job.Args["mode"]
 		childLog("e2e seed=%d case=%d mode=%s ops=%d", job.Seed, job.Case, mode, job.N)
-		r := runE2E(job.Seed, job.Case, mode, job.N)
+		var r *E2ERes
+		if mode == "simple" {
+			r = runE2ESimple(job.Seed, job.Case, job.N)
+		} else {
+			r = runE2E(job.Seed, job.Case, mode, job.N)
+		}
 		out := &JobRes{Evals: r.Ops, Inconclusive: r.Inconclusive, Counters: Counter{"e2e_requests_over_tcp_to_the_real_binary": r.Ops, "e2e_server_instances": r.Instances, "e2e_restarts_compared": r.Restarts,
 			"e2e_sigkills": r.Kills, "e2e_write_verifiers_seen": r.VerfSeen, "e2e_whole_tree_comparisons": r.Walks, "e2e_hostile_requests": r.Hostile}}
 		for _, v := range r.Viol {
@@ -584,6 +589,11 @@ func e2eClass(prop, class string) string {
 			return "crash"
 		}
 		return "canary"
+	case "C17":
+		if class == "crash" {
+			return "crash"
+		}
+		return "simple"
 	}
 	return class
 }
@@ -768,7 +778,7 @@ func propSpecs() map[string]PropSpec {
 			for i := 0; i < n; i++ {
 				js = append(js, Job{Engine: "xdr", Profile: "C16", Seed: seed, Case: i, N: it})
 			}
-			js = withE2E(func(string, uint64) []Job { return js }, "C16", []string{"clean", "stats"}, 70, 4)(tier, seed)
+			js = withE2E(func(string, uint64) []Job { return js }, "C16", []string{"clean", "stats", "simple"}, 150, 4)(tier, seed)
 			return js
 		},
 		Assume: []string{"go-rpcgen's rfc1813 package is an independent rendering of the RFC's XDR description (same generator: hand-derived vectors guard the shared part)"}})
@@ -783,6 +793,7 @@ func propSpecs() map[string]PropSpec {
 			for i := 0; i < n; i++ {
 				js = append(js, Job{Engine: "simple", Profile: "C17", Seed: seed, Case: i})
 			}
+			js = withE2E(func(string, uint64) []Job { return js }, "C17", []string{"simple"}, 300, 6)(tier, seed)
 			return js
 		}})
 	add(PropSpec{ID: "C18", Level: "fault_enumeration", Classes: []string{"kvs", "crash"},
